@@ -167,6 +167,8 @@ impl IntrospectionEntry {
         debug_assert!(!self.conn_ids.is_empty());
 
         let idx = rand::rng().random_range(0..self.conn_ids.len());
+        #[cfg(feature = "verif-hooks")]
+        let idx = crate::verif::choose(self.conn_ids.len(), idx);
         let conn_id = &self.conn_ids[idx];
 
         self.queried = Some(IntrospectionQuery::new(conn_id.clone(), serial));
@@ -247,5 +249,42 @@ impl RemoveConn {
             serial,
             result: RemoveConnResult::Continue(type_id),
         }
+    }
+}
+
+#[cfg(feature = "verif-hooks")]
+impl IntrospectionDatabase {
+    pub(crate) fn verif_snapshot(&self) -> Vec<crate::verif::VerifIntrospectionEntry> {
+        let mut entries: Vec<_> = self
+            .entries
+            .iter()
+            .map(|(type_id, entry)| {
+                let mut conn_id_idxs: Vec<_> = entry
+                    .conn_id_idxs
+                    .iter()
+                    .map(|(id, idx)| (id.verif_id(), *idx))
+                    .collect();
+                conn_id_idxs.sort();
+
+                crate::verif::VerifIntrospectionEntry {
+                    type_id: *type_id.0.as_bytes(),
+                    conn_ids: entry.conn_ids.iter().map(ConnectionId::verif_id).collect(),
+                    conn_id_idxs,
+                    has_introspection: entry.introspection.is_some(),
+                    queried: entry
+                        .queried
+                        .as_ref()
+                        .map(|q| (q.conn_id.verif_id(), q.serial)),
+                    pending: entry
+                        .pending
+                        .iter()
+                        .map(|q| (q.conn_id.verif_id(), q.serial))
+                        .collect(),
+                }
+            })
+            .collect();
+
+        entries.sort_by_key(|e| e.type_id);
+        entries
     }
 }
